@@ -7,7 +7,9 @@ from vlib.runner import fail, hyp_run
 
 LEVEL = "exploration"
 RULE = ("Hypothesis-generated (dimension 1..5, box, objective recipe incl. constant/step/quantised "
-        "families, r, eps, itersLimit<=400, drive = Solve or DoGlobalIteration batches); oracle = "
+        "families, r, eps, itersLimit<=400, drive = Solve, DoGlobalIteration batches within the budget, or "
+        "batches that continue the search for 50..500 trials past a small itersLimit with an optional Solve in "
+        "between); oracle = "
         "independent AGP model replaying the observed history, every prefix checked. Non-trivial: >=5 "
         "trials and, after the third trial, at least one iteration where M grew and one where the best "
         "value improved (the two recalculation paths). Distinct = distinct case digest.")
